@@ -8,7 +8,8 @@ programs (2-4 threads, ops repl/clear/read/hold/drop/deref/enter/leave on 1-3 ce
 program ends with its exit) plus the fixed programs below, K complete random schedules each are generated from the
 model (`driver qsbr gen`), replayed on the harness and compared line by line (xvlib.correspond_one).  The fixed programs
 cover: thread exits with pending retire lists (orphans), a reader that keeps a guard across another thread's exit,
-adoption of orphans, orphans swallowed by the orphan of the adopting thread, exits with live guards / region_guards."""
+adoption of orphans, orphans swallowed by the orphan of the adopting thread, exits with live guards / region_guards,
+exits whose epoch CAS (~thread_data) races with an epoch advance."""
 import sys, os, re, random, argparse
 sys.path.insert(0, os.path.dirname(os.path.abspath(__file__)))
 import xvlib as X
@@ -28,6 +29,10 @@ FIXED = [
     (C2, ['enter; repl 0; read 1; leave; repl 1', 'enter; enter; hold 0 0; leave; leave; read 0', 'hold 1 1; enter; repl 1']),
     (C2, ['enter; repl 0; repl 1', 'hold 0 0; hold 1 1; enter', 'read 0; leave; enter; read 1; leave; read 0']),
     (C2, ['read 0', 'read 0; read 1', 'read 0; read 1']),
+    # exits with pending retire lists racing with epoch advances of the other threads (the CAS of ~thread_data that reads the
+    # current global epoch fails and is retried)
+    (C2, ['hold 1 0; repl 0', 'read 0; read 0; read 0', 'hold 1 1; repl 1']),
+    (C2, ['enter; repl 0; repl 1', 'read 1; read 1; read 1; read 1', 'hold 0 0; repl 0', 'read 0; read 0']),
 ]
 
 def random_program(r):
